@@ -1441,7 +1441,7 @@ class C14Oracle(Oracle):
             self._edits += 1
 
     def gen_extra(self, kind, rnd):
-        return {"op": "roundtrip", "fmt": rnd.choice(["csv", "geff", "internal", "geff", "csv_display_skip"][:4]),
+        return {"op": "roundtrip", "fmt": rnd.choice(["csv", "geff", "internal", "geff", "csvdisplay"]),
                 "zarr": rnd.choice([2, 2, 3])}
 
     def finish(self):
@@ -1558,6 +1558,33 @@ class C14Oracle(Oracle):
         if seg is not None and not np.array_equal(np.asarray(imp.segmentation).astype(np.int64), tr.segmentation.astype(np.int64)):
             return ("segmentation", "segmentation differs after CSV import")
         return None
+
+    def _rt_csvdisplay(self, tmp, op):
+        """CSV written with display names as headers, read back with the matching map."""
+        import pandas as pd
+
+        from funtracks.import_export import export_to_csv, tracks_from_df
+
+        w = self.w
+        tr = w.tracks
+        export_to_csv(tr, tmp / "d.csv", use_display_names=True)
+        df = pd.read_csv(tmp / "d.csv")
+        feats = tr.features
+
+        def col(key):
+            return feats[key].get("display_name", key)
+
+        pk = w.pos_key
+        if isinstance(pk, list):
+            pos_cols = [col(k) for k in pk]
+        else:
+            pos_cols = list(feats[pk].get("value_names") or [])
+        nm = {"time": col(w.time_key), "pos": pos_cols, "id": "ID", "parent_id": "Parent ID",
+              "track_id": col(w.tkey)}
+        with warnings.catch_warnings():
+            warnings.simplefilter("ignore")
+            imp = tracks_from_df(df, scale=None if tr.scale is None else list(tr.scale), node_name_map=nm)
+        return self._compare_basic(imp, check_lineage=False)
 
     def _rt_geff(self, tmp, op):
         from funtracks.import_export import export_to_geff, import_from_geff
